@@ -330,10 +330,11 @@ def run(ctx):
         if i % 97 == 0:
             ctx.sample({"label": sc.get("label"), "request": lines[i][:400], "impl": text[:400]})
         if model is not None and model[i] != text:
-            m_eff, m_status, _ = L.parse_trace(model[i]) if model[i].count(" | ") == 2 else ([], model[i], "")
+            m_eff = L.parse_trace(model[i])[0] if model[i].count(" | ") == 2 else []
             i_eff, i_status, _ = L.parse_trace(text)
-            if (sc.get("label", "").endswith(":p-1") and m_status == "ok" and i_status == "ssh"
-                    and len(i_eff) < len(m_eff) and i_eff == m_eff[:len(i_eff)]):
+            if (sc.get("peer_value") is not None and sc["peer_value"] == sc["modulus_p"] - 1 and i_status == "ssh"
+                    and len(i_eff) < len(m_eff) and i_eff == m_eff[:len(i_eff)]
+                    and not last_step_effects(sc, i_eff, start_len_of(sc))):
                 # an implementation that also refuses the top value p-1 is stricter than the model, not wrong
                 ctx.dist("tolerated:p-1-refused")
                 continue
